@@ -128,9 +128,9 @@ func build(c *paceCase, deviate func(string, []byte) []byte) *built {
 	main := lds.PACEInfo(oid, 2, pid)
 	entries := []chipsim.PaceEntry{{OID: oid, ParamID: c.ParamID}}
 	infos := [][]byte{main}
-	imOID := "0.4.0.127.0.7.2.2.4.4.2"   // id-PACE-ECDH-IM-AES-CBC-CMAC-128 (unsupported by the library)
-	dhOID := "0.4.0.127.0.7.2.2.4.1.2"   // id-PACE-DH-GM-AES-CBC-CMAC-128 (unsupported)
-	dhIMOID := "0.4.0.127.0.7.2.2.4.3.1" // id-PACE-DH-IM-3DES
+	imOID := "0.4.0.127.0.7.2.2.4.4.2"                      // id-PACE-ECDH-IM-AES-CBC-CMAC-128 (unsupported by the library)
+	dhOID := "0.4.0.127.0.7.2.2.4.1.2"                      // id-PACE-DH-GM-AES-CBC-CMAC-128 (unsupported)
+	dhIMOID := "0.4.0.127.0.7.2.2.4.3.1"                    // id-PACE-DH-IM-3DES
 	const paceArcUnknownMapping = "0.4.0.127.0.7.2.2.4.9.2" // id-PACE 9 (no such mapping) . AES-128
 	const paceArcUnknownCipher = "0.4.0.127.0.7.2.2.4.2.9"  // id-PACE-ECDH-GM . 9 (no such cipher)
 	otherID := 12
@@ -539,6 +539,16 @@ var deviations = []deviation{
 		}
 		return o
 	}},
+	{"ecad-negated-scalar", "pace-ecad", true, func(g []byte, c *paceCase, chip func() *chipsim.Chip, _ *detrand.Stream) []byte {
+		// A_IC' = E(KS_enc, n - CA_IC): the terminal then recovers -PK_Map,IC, a point with the right x-coordinate
+		_, ksEnc, _, _ := chip().PaceLast()
+		cv := ecc.ByPaceID(c.ParamID)
+		iv := mac.AESCBCEncrypt(ksEnc, make([]byte, 16), bytes.Repeat([]byte{0xFF}, 16))
+		plain := mac.AESCBCDecrypt(ksEnc, iv, g)
+		ca := new(big.Int).SetBytes(plain[:cv.ByteLen])
+		neg := new(big.Int).Sub(cv.N, ca)
+		return mac.AESCBCEncrypt(ksEnc, iv, mac.PadM2(cv.FixedBytes(neg), 16))
+	}},
 	{"ecad-truncated-block", "pace-ecad", true, func(g []byte, _ *paceCase, _ func() *chipsim.Chip, _ *detrand.Stream) []byte {
 		return append([]byte{}, g[:len(g)-16]...)
 	}},
@@ -595,6 +605,33 @@ func TestPACEFailsClosed(t *testing.T) {
 		}
 		if msg := checkClosed(o); msg != "" {
 			evid.Fail(rt, "closed-"+dev.name, rep, "altered chip message (%s) not refused: %s", dev.name, msg)
+		}
+	})
+}
+
+// TestPACEReflector: a counterpart that does not know the password echoes the terminal's
+// key-agreement public key as its own and the terminal's token as its own (two chip
+// messages derived from the terminal's, so none of the single alterations covers it).
+// ICAO 9303-11 4.4.1 requires the terminal to refuse equal agreement keys; whatever
+// the mechanism, PACE must report failure and install no session.
+func TestPACEReflector(t *testing.T) {
+	evid.RapidCheck(t, 400, 10000, func(rt *rapid.T) {
+		c := drawCase(rt, false)
+		c.Deviation = "reflect-agreement-key-and-token"
+		b := build(c, nil)
+		b.chip.Cfg.PaceReflector = true
+		pass, err := makePassword(c, false, rt)
+		if err != nil {
+			evid.Fail(rt, "closed-password", c.repro(), "library rejects a valid MRZ: %v", err)
+		}
+		o := runPACE(b, pass, c.LibSeed)
+		rep := c.repro()
+		evid.Case("deviation-reflector", true, c.key(), rep)
+		if b.chip.Done.PACE {
+			evid.Infra(rt, "the reflecting chip model completed PACE: %v", rep)
+		}
+		if msg := checkClosed(o); msg != "" {
+			evid.Fail(rt, "closed-reflector", rep, "a counterpart echoing the terminal's agreement key and token (no password) was not refused: %s", msg)
 		}
 	})
 }
